@@ -288,8 +288,13 @@ impl StreamData {
         let start_idx = self.entries.binary_search_by(|e| e.id.cmp(start))
             .unwrap_or_else(|idx| idx);
         
-        let end_idx = self.entries.binary_search_by(|e| e.id.cmp(end))
-            .unwrap_or_else(|idx| if idx > 0 { idx - 1 } else { 0 });
+        let end_idx = match self.entries.binary_search_by(|e| e.id.cmp(end)) {
+            Ok(idx) => idx,
+            // Every entry is above the end of the range: nothing to return
+            // (idx - 1 clamped to 0 used to select the first entry)
+            Err(0) => return StreamRangeResult { entries: Vec::new() },
+            Err(idx) => idx - 1,
+        };
         
         let mut result_entries = Vec::new();
         
